@@ -1,13 +1,22 @@
-(* c08_driver.ml — runs the extracted C08 ledger model over one concretised history per request line.
+(* c08_driver.ml — runs the extracted C08 ledger model (database level: several wallets in one file, session and
+   committed rows) over one concretised history per request line.
 
-   request : hist <repaired 0/1> <strict 0/1> <nw> <acct> <bip32 0/1> <op> <op> ...
-   ops     : K:id:nw:acct:depth | U:rescan:nw:acct:kf:utxos | C:nw:acct:minconf:sel | T:sent:txid:nw:acct:conf:ins:outs:raw
-             | D:txid | R | O[:groups] | OF[:groups]          groups = nw.acct,nw.acct,...
+   request : hist <repaired> <strict> <del_commits> <mark_all> <del_own> <tok> <tok> ...      (flags 0/1: variant)
+   tokens  : W:wid:nw:acct:bip32   a wallet is created in the file and becomes the current one
+             @:wid                 the following tokens speak about wallet wid
+             ops on the current wallet:
+             K:id:nw:acct:depth | U:rescan:nw:acct:kf:utxos | C:nw:acct:minconf:sel | T:sent:txid:nw:acct:conf:ins:outs:raw
+             | D:txid | R
+             P:txids:groups        reading through a SECOND Wallet object / another process: the committed rows
+             O[:groups] | OF[:groups]   observation through the live object    groups = nw.acct,nw.acct,...
              utxos = key/txid/n/value/conf,...   sel = txid/n,...   ins = idx/prev/n/value/key,...
              outs = n/value/key/spent,...  (key "-" = none; spent 0, 1 or "-" = None);  empty list "-"
-   answer  : one item per op joined by "|": "g=<guard>" for state-changing ops, "g=..;sel=.." for C,
+   answer  : one item per token joined by "|": "w" / "@" for W / @, "g=<guard>[;k=1][;t=1][;refused=1]" for
+             state-changing ops (k: class predicate store_respends, t: touches_others, refused: delete_blocked),
+             "g=..;sel=.." for C, for P
+             kbpre=..;utxos_pre=..;txs_pre=..;pa_pre=..
              and for O / OF the observation
-             kbpre=..;bal=..;utxos=..;kb=..;txs=..;pa=..;kbA=..;ka=..
+             bal=..;utxos=..;kb=..;txs=..;pa=..;kbA=..;ka=..;x=..
              (OF prints the raw bytes of every transaction too).  pa: for every listed group, after the default
              readings, the BalanceOf / UtxosOf steps  "nw.acct~balance~utxos" joined by "+"; kbA: the key balances
              after these steps; ka: key id : nw.acct of every key; x: class predicate has_cross of the state. *)
@@ -85,38 +94,68 @@ let s_ka ks =
   String.concat "," (List.map (fun k -> zs k.k_id ^ ":" ^ zs (fst k.k_grp) ^ "." ^ zs (snd k.k_grp))
                        (List.sort (fun a b -> cmpz a.k_id b.k_id) ks))
 
-let observe r st s full groups =
-  let kbpre = s_kb s.l_keys in
-  let (s1, o) = step_gen r st s Balance in
+let observe v db wid full groups =
+  let stepw db o = match db_step_gen v db wid o with
+    | (db', DOut out) -> (db', out)
+    | (db', _) -> (db', ONone) in
+  let (db1, o) = stepw db Balance in
   let bal = match o with OBal b -> zs b | _ -> "?" in
-  let (s2, o2) = step_gen r st s1 Utxos in
+  let (db2, o2) = stepw db1 Utxos in
   let ut = match o2 with OUtxos l -> s_utxos l | _ -> "?" in
-  let base = "kbpre=" ^ kbpre ^ ";bal=" ^ bal ^ ";utxos=" ^ ut ^ ";kb=" ^ s_kb s2.l_keys ^ ";txs=" ^ s_txs full s2.l_txs in
+  let live d = match find_wal d wid with Some w -> w.wl_live | None -> failwith "no wallet" in
+  let s2 = live db2 in
+  let base = "bal=" ^ bal ^ ";utxos=" ^ ut ^ ";kb=" ^ s_kb s2.l_keys ^ ";txs=" ^ s_txs full s2.l_txs in
   (* balance(account_id=a[, network]) and utxos(account_id=a[, network]) for every group, in the order given *)
-  let (s3, pa) = List.fold_left (fun (s, acc) (nw, a) ->
-      let fn = if BZ.equal nw (fst s.l_default) then None else Some nw in
-      let (sa, oa) = step_gen r st s (BalanceOf (Some a, fn)) in
+  let (db3, pa) = List.fold_left (fun (d, acc) (nw, a) ->
+      let fn = if BZ.equal nw (fst (live d).l_default) then None else Some nw in
+      let (da, oa) = stepw d (BalanceOf (Some a, fn)) in
       let b = match oa with OBal b -> zs b | _ -> "?" in
-      let (sb, ob) = step_gen r st sa (UtxosOf ((nw, a), BZ.zero)) in
+      let (dbb, ob) = stepw da (UtxosOf ((nw, a), BZ.zero)) in
       let u = match ob with OUtxos l -> s_utxos l | _ -> "?" in
-      (sb, acc @ [zs nw ^ "." ^ zs a ^ "~" ^ b ^ "~" ^ u])) (s2, []) groups in
-  (s3, base ^ ";pa=" ^ String.concat "+" pa ^ ";kbA=" ^ s_kb s3.l_keys ^ ";ka=" ^ s_ka s3.l_keys
-       ^ ";x=" ^ (if has_cross s3 then "1" else "0"))
+      (dbb, acc @ [zs nw ^ "." ^ zs a ^ "~" ^ b ^ "~" ^ u])) (db2, []) groups in
+  let s3 = live db3 in
+  (db3, base ^ ";pa=" ^ String.concat "+" pa ^ ";kbA=" ^ s_kb s3.l_keys ^ ";ka=" ^ s_ka s3.l_keys
+        ^ ";x=" ^ (if has_cross s3 then "1" else "0"))
+
+(* what a second Wallet object on the file reads: nothing is written *)
+let preread db wid txids groups =
+  let w = match find_wal db wid with Some w -> w | None -> failwith "no wallet" in
+  let s = open_disk w in
+  let sel = List.filter (fun t -> List.exists (fun x -> BZ.equal x t.t_txid) txids) s.l_txs in
+  let pa = List.map (fun (nw, a) -> zs nw ^ "." ^ zs a ^ "~" ^ s_utxos (utxos s (nw, a) BZ.zero)) groups in
+  "kbpre=" ^ s_kb s.l_keys ^ ";utxos_pre=" ^ s_utxos (utxos s s.l_default BZ.zero)
+  ^ ";txs_pre=" ^ s_txs false sel ^ ";pa_pre=" ^ String.concat "+" pa
+
+let groups_of_s gs = List.map (fun g -> match String.split_on_char '.' g with
+    | [nw; a] -> (z nw, z a) | _ -> failwith "group") (split ',' gs)
 
 let dispatch = function
-  | "hist" :: r :: st :: nw :: acct :: bip32 :: ops ->
-      let r = b01 r and st = b01 st in
-      let s = ref (init (z nw, z acct) (b01 bip32)) in
+  | "hist" :: r :: st :: dc :: ma :: dow :: toks ->
+      let v = { v_repaired = b01 r; v_strict = b01 st; v_del_commits = b01 dc; v_mark_all = b01 ma;
+                v_del_own = b01 dow } in
+      let db = ref [] and cur = ref BZ.zero in
       let outs = List.map (fun t ->
+          match String.split_on_char ':' t with
+          | ["W"; wid; nw; acct; bip32] ->
+              db := db_create !db (z wid) (z nw, z acct) (b01 bip32); cur := z wid; "w"
+          | ["@"; wid] -> cur := z wid; "@"
+          | ["P"; txids; gs] -> preread !db !cur (List.map txid_of (split ',' txids)) (groups_of_s gs)
+          | _ ->
           match parse_op t with
           | Some o, _ ->
-              let g = (if op_ok !s o then "1" else "0") ^ (if store_respends !s o then ";k=1" else "") in
-              let (s', out) = step_gen r st !s o in
-              s := s';
-              (match out with OSel b -> "g=" ^ g ^ ";sel=" ^ bool_s b | _ -> "g=" ^ g)
+              let live = match find_wal !db !cur with
+                | Some w -> (match o with Reopen -> open_disk w | _ -> w.wl_live) | None -> failwith "no wallet" in
+              let g = (if db_op_ok !db !cur o then "1" else "0") ^ (if store_respends live o then ";k=1" else "")
+                      ^ (if touches_others v !db !cur o then ";t=1" else "") in
+              let (db', out) = db_step_gen v !db !cur o in
+              db := db';
+              (match out with
+               | DOut (OSel b) -> "g=" ^ g ^ ";sel=" ^ bool_s b
+               | DRefused -> "g=" ^ g ^ ";refused=1"
+               | _ -> "g=" ^ g)
           | None, k ->
-              let (s', txt) = observe r st !s (k = "OF") (groups_of t) in
-              s := s'; txt) ops in
+              let (db', txt) = observe v !db !cur (k = "OF") (groups_of t) in
+              db := db'; txt) toks in
       String.concat "|" outs
   | _ -> "BADREQ"
 
